@@ -257,14 +257,6 @@ Theorem C03_main_drift_is_linear :
 Proof. exact main_drift_is_linear. Qed.
 Print Assumptions C03_main_drift_is_linear.
 
-(** one step advances the phase by 2 pi dt / t_sync (dt, t_sync: what the wake field and the results file receive) *)
-Theorem C03_main_angle_dt_t_sync :
-  forall (K : Fld) (O : Ops K) (L : leaf -> K) (B : bleaf -> bool),
-    gen_fs K O L B <> 0 -> gen_steps K O L B <> 0 ->
-    gen_angle K O L B * gen_t_sync K O L B = L C_two_pi * gen_dt K O L B.
-Proof. exact angle_dt_t_sync. Qed.
-Print Assumptions C03_main_angle_dt_t_sync.
-
 (** non-vacuity over Qc: StepsPerTs = 50, two_pi := 44/7 -> angle = 22/175; every other option 1 *)
 Example C03_main_angle_example :
   let L := fun l => match l with O_getStepsPerTsync => Q2Qc 50 | C_two_pi => Q2Qc (44 # 7) | O_getStepsPerTrev => 0%Qc | _ => 1%Qc end in
